@@ -40,6 +40,13 @@ class Fn:
     def nid(self, a: ast.AST) -> Optional[int]:
         return self.cfg.node_of(a)
 
+    def first_nid(self, st: ast.AST) -> Optional[int]:
+        """cfg node at which execution of statement `st` starts (the statement itself, or its first evaluated part)"""
+        for n in ast.walk(st):
+            if id(n) in self.cfg.owner:
+                return self.cfg.owner[id(n)]
+        return None
+
     def live(self, a: ast.AST) -> bool:
         n = self.nid(a)
         return n is not None and n in self.cfg.live()
